@@ -156,7 +156,7 @@ def divergence(setmap):
     Compute code divergence as defined by Harrell and Kitson
     i.e. average of pair-wise distances between platform sets
     """
-    platforms = extract_platforms(setmap)
+    platforms = sorted(extract_platforms(setmap))
 
     d = 0
     npairs = 0
